@@ -19,15 +19,19 @@ SPEC = {
         'receive loop (outside /repo; reported, not covered)',
         'the model is tied to session.py / peers.py / util.py / aiorpcx.handler_invocation by '
         'differential execution, not by proof',
+        'C16_refused_no_effect is definitional: the model\'s dispatch returns the unchanged state when the pure Parser fails; the real handlers mutate BEFORE validating (bump_cost at the top of scripthash_unsubscribe, server_version, ...): the session\'s cost is not part of the modelled state, so "changes nothing" means: subscriptions and caches',
+        'correction to the comment "sessions share only the manager caches" (C16.lean): sessions also share the cost accounting (SessionManager.extra_cost: the cost of one session\'s error replies feeds the group cost of others and can throttle or disconnect them), recent_peer_adds, the peer set and _method_counts; none of these channels is modelled, C16_others is about replies and caches only (so far acknowledged in integration/rpc.md only)',
+        'add_peer: the model takes the first host of the features only, the code constructs a Peer for every host (Peer.peers_from_features); not linked to C19_ports (different JSON type); the `if not source_addr` early return of on_add_peer is absent from the model',
+        'model mismatch (audit, fidelity 6): the height test of the F20 fix (session.py tx_hashes_at_blockheight) is not ported to Rpc.txHashesAt; unreachable by suite rpc',
     ],
     'design_ref': 'DESIGN.md §6 C16, §8 F11 F12 (+ F13, F14 found by the fuzz)',
     'level_text': 'proof (partial): for every method name and every positional or named JSON argument '
                   'value (all shapes, NaN/Infinity, integers and strings of any size, any nesting) the '
                   'modelled request path - handler table, aiorpcx arity/name checks, every validator, '
                   'every handler body over an abstract backend - ends in a result, an RPCError or '
-                  'ReplyAndDisconnect(RPCError) (C16_total); a refused request changes nothing, no error '
+                  'ReplyAndDisconnect(RPCError) (C16_total); a refused request changes nothing of the modelled state (subscriptions, caches; the session cost bumped before validation is not modelled), no error '
                   'reply alters subscriptions, caches only gain entries that agree with the index, other '
-                  'sessions get identical replies (C16_refused_no_effect, C16_no_effect, C16_others); the '
+                  'sessions get identical replies - cost accounting, peer set and method counters, which sessions also share, are not modelled - (C16_refused_no_effect, C16_no_effect, C16_others); the '
                   'only echoed argument is a validated string (C16_wellformed).  Caught exception tuples, '
                   'handler table and the repaired behaviours are regenerated from the source, so reverting '
                   'a repair breaks the theorem.  Handler bodies and aiorpcx are covered by differential '
